@@ -55,6 +55,9 @@ def main():
         demofile = os.path.join(testdir, "zz_seeded_demo_test.go")
         relpkg = "." if sub in (".", "publish") else "./" + sub
         run_demo = "go test -vet=off -count=1 -timeout 300s -run '%s' %s" % (pattern, relpkg)
+        if "testing/synctest" in text or "go1.25" in text:
+            # the demonstration needs the newer toolchain
+            run_demo = "GOTOOLCHAIN=local GOSUMDB=off go1.26.8 test -vet=off -count=1 -timeout 300s -run '%s' %s" % (pattern, relpkg)
         # 1. demo passes on the unchanged tree
         shutil.copy(demo, demofile)
         rc, out = sh(run_demo, cwd=moddir)
